@@ -451,7 +451,7 @@ Proof. idtac "start".
   intros [pa pb] b d i Hb.
   unfold pgt_wC. destruct b, d; try discriminate Hb; cbn [pg_get pg_put fst snd negb];
     (split; [apply pgt_copied_src|split; [|intros H; discriminate H]]);
-    (eapply pgt_keep_weaken; [|apply pgt_copied_dst]); intros j Hj; (split; [reflexivity|exact Hj]).
+    refine (pgt_keep_weaken _ _ _ _ _ (pgt_copied_dst _ _ _)); intros j Hj; (split; [reflexivity|exact Hj]).
 Qed.
 
 Lemma pgt_foreign_put : forall w d p h, pg_foreign_handle (pg_put w d p) d h = pg_foreign_handle w d h.
